@@ -4,7 +4,7 @@
    ReloadSubnets calls).  Only what is observable without touching the code is logged, under
    one global sequence lock:
      ReqStart(p)               before the call        ReqEnd(p, v4, v6)   after it returned
-     ReloadStart(p, t)         before ReloadSubnets   ReloadEnd(p)        after it returned
+     ReloadStart(p, t)         before ReloadSubnets   ReloadEnd(p, failed) after it returned (failed = it returned an error)
    (v4 / v6 = which subnet file, "A" or "B", the returned address lies in; "-" = absent).
    The lock steps and selections between a call's start and end are internal: the trace spec
    composes them silently (any number of spec steps of STARTED processes between two events),
@@ -27,7 +27,7 @@ TraceReset ==
   /\ held' = [r \in Requests |-> 0]
   /\ gen' = [r \in Requests |-> [v4 |-> "-", v6 |-> "-"]]
   /\ resp' = [r \in Requests |-> [v4 |-> "-", v6 |-> "-"]]
-  /\ mpc' = [m \in Reloads |-> "load"]
+  /\ mpc' = [m \in Reloads |-> FirstStep]
   /\ loaded' = [m \in Reloads |-> "-"]
   /\ obs' = [a |-> "Init"]
   /\ started' = {}
@@ -42,7 +42,8 @@ TraceEvent ==
          [] e.a = "ReqEnd"      -> e.p \in started /\ ReqDone(e.p)
                                    /\ resp[e.p].v4 = e.v4 /\ resp[e.p].v6 = e.v6
                                    /\ started' = started
-         [] e.a = "ReloadEnd"   -> e.p \in started /\ mpc[e.p] = "done" /\ started' = started
+         [] e.a = "ReloadEnd"   -> e.p \in started /\ mpc[e.p] = "done" /\ e.failed = (e.p \in Bad)
+                                   /\ started' = started
          [] OTHER               -> FALSE
   /\ UNCHANGED vars
   /\ l' = l + 1 /\ Mark(l)
